@@ -4,7 +4,7 @@
 From Coq Require Import List NArith ZArith Bool Lia.
 From H2V Require Import Base.Bytes Base.MachineInt Base.Result Gen.GenConsts Spec.Rfc7540Frames
   Impl.Pools Impl.Frames Impl.FrameView Proofs.FramesBits Proofs.FramesSpec Proofs.FramesRead
-  Proofs.FramesC16 Proofs.FramesWrite Proofs.FramesForward.
+  Proofs.FramesC16 Proofs.FramesWrite Proofs.FramesForward Proofs.FramesPooled.
 Import ListNotations.
 Local Open Scope N_scope.
 
@@ -215,3 +215,38 @@ Proof.
   cbn [flat_map length map app] in E. rewrite app_nil_r, <- app_assoc in E. apply E; [|reflexivity].
   repeat constructor; try exact ex_settings_wf; try exact ex_headers_wf; try reflexivity; vm_compute; discriminate.
 Qed.
+
+(* pooled objects. A header that still holds a SETTINGS payload, limit 0, a Ping body: *)
+Definition ex_dirty : fhdr := mkFH 6 4%Z 0 7 0 [0; 4; 0; 16; 0; 0] (Some (BPing true zeros8)).
+
+(* a SETTINGS ack written on it is the 9-byte ack *)
+Example ex_write_dirty_ack :
+  exists f', write_to (build_on ex_dirty 0 0 (BSettings (st_set_ack settings_reset true))) 9 =
+             Ok ([0; 0; 0; 4; 1; 0; 0; 0; 0], f').
+Proof.
+  destruct (write_frame_parses_on ex_dirty 0 0 (BSettings (st_set_ack settings_reset true)) 9) as (f' & E & _);
+    try (vm_compute; reflexivity); try (vm_compute; discriminate).
+  - conc.
+  - exists f'. exact E.
+Qed.
+
+(* pools holding that header (limit 0 = unlimited) and a used HEADERS body: ReadFrameFrom still
+   applies the default limit, and a HEADERS frame read next does not see the old block *)
+Definition ex_pools : pools :=
+  mkPools (Some ex_dirty)
+          (fun k => if (k =? 1)%Z then Some (BHeaders true 9 9 true true true [7; 7; 7]) else None).
+
+Example ex_pools_ok : pools_ok ex_pools.
+Proof.
+  intros k b. unfold ex_pools. cbn [p_frame]. destruct (k =? 1)%Z eqn:E; [|discriminate].
+  intros [= <-]. apply Z.eqb_eq in E. subst k. split; [reflexivity|exact I].
+Qed.
+
+Example ex_pool_limit :
+  ro_res (read_frame_pooled ex_pools None [0; 64; 1; 0; 0; 0; 0; 0; 1; 50; 51]) = Err E_too_large.
+Proof. rewrite (read_pool_independent _ _ _ ex_pools_ok). reflexivity. Qed.
+
+Example ex_pool_headers :
+  ro_res (read_frame_pooled ex_pools (Some 100) [0; 0; 2; 1; 4; 0; 0; 0; 1; 130; 134]) =
+  Ok (mkFH 2 1%Z 4 1 100 [130; 134] (Some (BHeaders false 0 0 false true false [130; 134]))).
+Proof. rewrite (read_pool_independent _ _ _ ex_pools_ok). vm_compute. reflexivity. Qed.
